@@ -11,8 +11,8 @@ import (
 	"strings"
 	"sync"
 	"sync/atomic"
-	"time"
 	"testing"
+	"time"
 
 	"github.com/samsarahq/thunder/federation"
 	"github.com/samsarahq/thunder/graphql"
@@ -36,6 +36,7 @@ type Case struct {
 	Modes     world.Modes         `json:"modes"`
 	Queries   []*world.Query      `json:"queries"`
 	Texts     []string            `json:"texts"`
+	Cancel    *CancelPlan         `json:"cancel,omitempty"` // TestCancelledRequest
 }
 
 type recorded struct {
@@ -387,6 +388,12 @@ func TestReplay(t *testing.T) {
 	var c Case
 	if _, err := ev.LoadReplay(p, &c); err != nil {
 		t.Fatalf("harness: cannot load replay: %v", err)
+	}
+	if c.Cancel != nil {
+		for i := 0; i < 10; i++ {
+			runCancelled(t, "TestReplay", c)
+		}
+		return
 	}
 	for i := 0; i < 3; i++ {
 		run(t, "TestReplay", c, nil)
